@@ -1,8 +1,9 @@
 /- Driver commands for the compression glue (C14). -/
 import LasModel.Model.Compress
-import LasModel.Driver.Util
+import LasModel.Model.CompressIO
+import LasModel.Driver.FileD
 namespace LasModel.Driver.CompD
-open LasModel.Compress
+open LasModel.Compress LasModel.CompressIO LasModel.FileIO LasModel.Driver.Util LasModel.Driver.VlrD LasModel.Driver.HdrD LasModel.Driver.FileD
 
 def optB (s : String) : Option (Option Bool) :=
   if s = "-" then some none else if s = "1" then some (some true) else if s = "0" then some (some false) else none
@@ -24,6 +25,25 @@ def handle (args : List String) : Option String :=
       let p := presentedVlrs (c == "1") w
       let sh (x : List V) := String.mk (x.map fun v => if v.isLasZip then 'Z' else 'u')
       return s!"{sh w} {if rd == "1" then sh p else "-"}"
+  | "session" :: cs :: rest => do
+      -- a compressed writer session on the backend double with chunk size `cs`
+      let cs ← cs.toNat?
+      let (hargs, ops) := splitAt "--" rest
+      let (h, _, _) ← parseHdrArgs hargs
+      let ops ← ops.mapM parseOp
+      match sessionC (stubCodec cs) (floatOps h) h ops with
+      | .ok bs => return "ok " ++ toHex (ofBytes bs)
+      | .error e => return "err " ++ werr e
+  | ["read", cs, hex] => do
+      let cs ← cs.toNat?
+      match readFileC (stubCodec cs) (toBytes (← parseHex hex)) with
+      | .ok r =>
+          let recs := toHex (ofBytes r.records.flatten)
+          let ev := " ".intercalate (r.evlrs.map showRec)
+          return s!"ok {showHdr r.hdr} # {r.records.length} {recs} # {ev}"
+      | .error (.read e) => return "err " ++ rerr e
+      | .error .noLasZip => return "err NoLasZip"
+      | .error .decompress => return "err Decompress"
   | _ => none
 
 end LasModel.Driver.CompD
